@@ -912,19 +912,19 @@ class CommandPipeline:
                 self._return_terminal()
             return
 
-        # Default: defer chain operands to the BoolOp wrapper.
-        if getattr(spec, "in_boolop", False):
-            return
-
-        # Standalone — only raise here if the user explicitly opted in
-        # to per-command raising.  Otherwise let the AST wrapper around
-        # the statement do it via $XONSH_SUBPROC_RAISE_ERROR.
+        # $XONSH_SUBPROC_CMD_RAISE_ERROR — the user explicitly opted in to
+        # per-command raising: every failing command raises, also as an
+        # operand of a ``&&``/``||`` chain (the fallback never runs).
         if XSH.env.get("XONSH_SUBPROC_CMD_RAISE_ERROR"):
             try:
                 raise subprocess.CalledProcessError(rtn, spec.args, output=self.output)
             finally:
                 # needed to get a working terminal in interactive mode
                 self._return_terminal()
+
+        # Default: chain operands (``in_boolop``) and standalone commands
+        # are left to the AST wrapper around the statement, which raises
+        # via $XONSH_SUBPROC_RAISE_ERROR.
 
     #
     # Properties
